@@ -140,17 +140,17 @@ theorem step_l4_log (p : PSt) (hf : (step p).fault = none) :
     state of the sequential machine after `k ≤ n` steps, the predicted fault (if any) is the fault of
     the sequential machine in that state, and the addresses retired so far followed by the pending
     ones are the addresses executed by the `k` sequential steps (after the initially pending ones). -/
-theorem refine_run (p0 : PSt) (hI : PInv p0) (hz : p0.hazard = true) :
-    ∀ n, runOK n p0 → ∃ k, k ≤ n ∧ SimP (abs (pipeRun n p0)) (seqRun k (abs p0)) ∧
+theorem refine_run_raw (p0 : PSt) (hI : PInv p0) :
+    ∀ n, runOK n p0 → (∀ m, m < n → RawFree (pipeRun m p0)) → ∃ k, k ≤ n ∧ SimP (abs (pipeRun n p0)) (seqRun k (abs p0)) ∧
       (absF p0 = none → absF (pipeRun n p0) = none ∨ absF (pipeRun n p0) = seqFault (seqRun k (abs p0))) ∧
       retireLog n p0 ++ absLog (pipeRun n p0) = absLog p0 ++ seqTrace k (abs p0)
-  | 0, _ => ⟨0, Nat.le_refl 0, SimP.rfl' _, fun h => Or.inl h, by simp [retireLog, seqTrace, pipeRun]⟩
-  | n + 1, hr => by
+  | 0, _, _ => ⟨0, Nat.le_refl 0, SimP.rfl' _, fun h => Or.inl h, by simp [retireLog, seqTrace, pipeRun]⟩
+  | n + 1, hr, hraw => by
     obtain ⟨hr', hf⟩ := runOK_succ hr
-    obtain ⟨k, hk, hsim, hflt, hlog⟩ := refine_run p0 hI hz n hr'
+    obtain ⟨k, hk, hsim, hflt, hlog⟩ :=
+      refine_run_raw p0 hI n hr' (fun m hm => hraw m (Nat.lt_succ_of_lt hm))
     have hIn := PInv_run p0 hI n hr'
-    have hzn : (pipeRun n p0).hazard = true := by rw [hazard_run, hz]
-    obtain ⟨a1, a2, a3⟩ := abs_step (pipeRun n p0) hIn hzn hf
+    obtain ⟨a1, a2, a3⟩ := abs_step_raw (pipeRun n p0) hIn (hraw n (Nat.lt_succ_self n)) hf
     have hcA : FetchSound (abs (pipeRun n p0)).imem := by rw [abs_imem]; exact hIn.icoh.fetchSound
     have hcS : FetchSound (seqRun k (abs p0)).imem :=
       (ICoh_seqRun (abs p0) (by rw [abs_imem]; exact hI.icoh) k).fetchSound
@@ -181,6 +181,18 @@ theorem refine_run (p0 : PSt) (hI : PInv p0) (hz : p0.hazard = true) :
           right
           rw [seqStep_stuck _ (by rw [hsf]; rfl), hsf]
       · rw [seqLog_congr hsim hcA hcS, List.append_assoc]; rfl
+
+/-- With hazard detection on, every reachable state is free of read-after-write hazards in decode. -/
+theorem rawFree_run_of_hazard (p0 : PSt) (hI : PInv p0) (hz : p0.hazard = true) (n : Nat) (hr : runOK n p0) :
+    ∀ m, m < n → RawFree (pipeRun m p0) := fun m hm =>
+  rawFree_of_hazard _ (PInv_run p0 hI m (fun j hj => hr j (Nat.lt_trans hj hm))) (by rw [hazard_run, hz])
+
+/-- `refine_run_raw` for a pipeline with hazard detection on. -/
+theorem refine_run (p0 : PSt) (hI : PInv p0) (hz : p0.hazard = true) (n : Nat) (hr : runOK n p0) :
+    ∃ k, k ≤ n ∧ SimP (abs (pipeRun n p0)) (seqRun k (abs p0)) ∧
+      (absF p0 = none → absF (pipeRun n p0) = none ∨ absF (pipeRun n p0) = seqFault (seqRun k (abs p0))) ∧
+      retireLog n p0 ++ absLog (pipeRun n p0) = absLog p0 ++ seqTrace k (abs p0) :=
+  refine_run_raw p0 hI n hr (rawFree_run_of_hazard p0 hI hz n hr)
 
 end ArchSim.Pipe
 
